@@ -707,6 +707,13 @@ def as_hex(v):
     raise ValueError("not a hex number: %r" % (v,))
 
 
+def as_hex_or_none(v):
+    try:
+        return as_hex(v)
+    except ValueError:
+        return None
+
+
 def as_dec(v):
     if isinstance(v, bool):
         raise ValueError("bool")
@@ -720,6 +727,7 @@ def as_dec(v):
 class CompNames:
     """component-id display names supplied to the decoder (fixture) - {creator: {"XXXX": name}}"""
     table = {}
+    lenient = False      # a name file is damaged: the creator's own name or the raw id are both acceptable
 
 
 def parse_dump(lines):
@@ -799,7 +807,7 @@ def check_field(entry, key, mode, value, problems, where):
                 else:
                     ok = as_hex(shown) == comp
             elif "%04X" % comp in names:
-                ok = shown == names["%04X" % comp]
+                ok = shown == names["%04X" % comp] or (CompNames.lenient and as_hex_or_none(shown) == comp)
             else:
                 ok = as_hex(shown) == comp
         elif mode == "dump":
